@@ -5,9 +5,12 @@
 From Coq Require Import ZArith NArith List Bool.
 Import ListNotations.
 From SV Require Import Common.Int32 C02.Kernels C02deep.Syntax C02deep.Sem C02deep.Passes C02deep.ProofsScope
+  C02deep.ProofsCcp C02deep.ProofsCseStatic
   C02loop.Analysis C02loop.Licm C02loop.Algebraic C02loop.StrengthIv C02loop.Driver C02loop.Classes
   C02loop.ProofsBase C02loop.ProofsLicm C02loop.ProofsAnalysis C02loop.ProofsExpand C02loop.ProofsAlgebraic
-  C02loop.ProofsExtract C02loop.ProofsExtract2 C02loop.ProofsXstep C02loop.ProofsIve C02loop.ProofsSr C02loop.ProofsDriver C02loop.ProofsWitness.
+  C02loop.ProofsExtract C02loop.ProofsExtract2 C02loop.ProofsXstep C02loop.ProofsIve C02loop.ProofsSr C02loop.ProofsDefs C02loop.ProofsSrG C02loop.ProofsDriver C02loop.ProofsWitness
+  C02loop.Cover C02loop.ProofsLicmWf C02loop.ProofsBridge C02loop.ProofsLoopWhile C02loop.ProofsCompose
+  C02loop.ProofsCover C02loop.ProofsWitness2.
 Open Scope Z_scope.
 
 (* ================================================================== (2) loop-invariant code motion *)
@@ -204,15 +207,62 @@ Theorem C02loop_sr_shape : forall o sup pre o2 sup',
 Proof. exact sr_inv. Qed.
 
 (* The prefix statements followed by the loop built from the reduced analysis result (sr_owl: with the filter of
-   the driver) behave like the loop built from the original analysis result - no side condition: the reduced
-   variables are computed modulo 2^32 on both sides (ring identities).  Hypotheses as for the induction-variable
-   elimination (owl_wf, owl_reads_i: as owl_reads, the guarded induction variable may be read; fresh_for), and: no
-   reduced variable is still bound by a body statement (then the filter of the driver removes nothing).  PARTIAL:
-   when the dead code elimination inside the loop kept the defining statement of a reduced variable because another
-   statement reads it, the driver deletes that statement and the readers read the new loop variable instead; that
-   case needs the link "the deleted statement computed m * b + c" (C02loop_derived_sound for the body BEFORE the
-   dead code elimination) and is covered by the tie and the sanity runs only. *)
-Theorem C02loop_sr_preserves_partial : forall w fuel T0 o ss rem collA ccA nsA tsA collB ccB nsB tsB en tr,
+   the driver, which deletes the top-level binary statements that bind a reduced variable) behave like the loop
+   built from the original analysis result - no arithmetic side condition: the reduced variables are computed
+   modulo 2^32 on both sides (ring identities).  The body may still contain the defining statement of a reduced
+   variable (the dead code elimination inside extract keeps it when another statement reads it): the driver
+   deletes it and the readers read the new loop variable, which holds the same value because the deleted statement
+   computed multiplier * base + immediate (reduced_defs_affine, a THEOREM for what extract returns:
+   C02loop_sr_defs_affine below).  Hypotheses: owl_wf / fresh_for as for the induction-variable elimination;
+   owl_reads_s (reads of the body, of the loop variables and of the break value are in scope; the guarded induction
+   variable may be read); after the filter no statement binds a reduced variable (they were bound by top-level
+   binary statements only); the base of every variable that stays derived is a loop variable of the reduced loop
+   (the MIR-level class K_base_dropped, here for the reduced analysis result). *)
+Theorem C02loop_sr_preserves : forall w fuel T0 o ss rem collA ccA nsA tsA collB ccB nsB tsB en tr,
+  let PT := flat_map (fun s => [sd_t1 s; sd_t2 s]) ss in
+  let oB := sr_owl o ss rem in
+  sr_rel (sr_bmap o) (o_derived o) ss rem ->
+  owl_wf T0 o -> owl_reads_s T0 o ->
+  (forall s, In s ss -> ~ In (dn_name (sd_d s)) (binders_l (o_stmts oB))) ->
+  (forall d, In d rem -> In (dn_base d) (bg_name (o_basic oB) :: map gi_name (kept_generals oB))) ->
+  reduced_defs_affine w fuel o ss ->
+  fresh_for T0 o (collA :: ccA :: nsA ++ tsA) ->
+  fresh_for (PT ++ T0) o (collB :: ccB :: nsB ++ tsB) ->
+  fresh_for T0 o PT ->
+  length nsA = length (kept_generals o) /\ length tsA = length (o_derived o) ->
+  length nsB = length (kept_generals oB) /\ length tsB = length (o_derived oB) ->
+  match exec Wrap w fuel (xloop o collA ccA (combine (kept_generals o) nsA) tsA) en tr with
+  | RNext e1 t => exists e1',
+      exec_block Wrap w fuel (flat_map sd_pre ss ++ [xloop oB collB ccB (combine (kept_generals oB) nsB) tsB]) en tr = RNext e1' t /\
+      agree w (opt_names (bc_of o) ++ T0) e1 e1'
+  | RBreak _ _ _ | RStuck | ROvf => True
+  | r => exec_block Wrap w fuel (flat_map sd_pre ss ++ [xloop oB collB ccB (combine (kept_generals oB) nsB) tsB]) en tr = r
+  end.
+Proof. exact sr_sound_g. Qed.
+
+(* The premise reduced_defs_affine is a theorem for every analysis result that Analysis.extract returns (same
+   hypotheses on the loop as C02loop_extract_expand_preserves: well scoped, single assignment, the non-invariant set
+   covers the loop variables and the body's definitions): in the body AFTER the dead code elimination, whenever the
+   statements in front of a kept `d = x op y` (d a derived induction variable) have run from the head of an
+   iteration, x op y does not trap and equals multiplier * base + immediate modulo 2^32 (base, multiplier and
+   immediate read at the head of the iteration).  It only speaks about the statements, so it carries over to the
+   analysis result after the induction-variable elimination (same statements, fewer derived variables). *)
+Theorem C02loop_sr_defs_affine : forall w fuel S lvs ss bc ninv o srs,
+  extract lvs ss bc ninv = XOk o ->
+  scoped S (SWhile lvs ss bc) = true ->
+  NoDup (binders (SWhile lvs ss bc)) ->
+  (forall x, In x (binders (SWhile lvs ss bc)) -> ~ In x S) ->
+  (forall x, In x (map t_name lvs ++ defs_l ss) -> In x ninv) ->
+  (forall s, In s srs -> In (sd_d s) (o_derived o)) ->
+  reduced_defs_affine w fuel o srs.
+Proof. exact extract_defs_affine. Qed.
+Theorem C02loop_sr_defs_affine_same_stmts : forall w fuel o o1 ss,
+  o_stmts o1 = o_stmts o -> reduced_defs_affine w fuel o ss -> reduced_defs_affine w fuel o1 ss.
+Proof. exact reduced_defs_affine_same. Qed.
+
+(* The special case "no reduced variable is still bound by a body statement" (the filter of the driver removes
+   nothing) under the weaker scoping premise owl_reads_i and without the premise on the bases. *)
+Theorem C02loop_sr_preserves_no_kept_defs : forall w fuel T0 o ss rem collA ccA nsA tsA collB ccB nsB tsB en tr,
   let PT := flat_map (fun s => [sd_t1 s; sd_t2 s]) ss in
   let oB := sr_owl o ss rem in
   sr_rel (sr_bmap o) (o_derived o) ss rem ->
@@ -308,6 +358,113 @@ Theorem C02loop_ive_exit_overflow_refuted :
     sem All ww f [0; 0] 100 = Done 2142114891 [] /\ sem Wrap ww f' [0; 0] 100 = OutOfFuel.
 Proof. exact ive_exit_overflow_refuted. Qed.
 
+(* ================================================================== (5) composition: the whole pass *)
+(* What loop-invariant code motion leaves is again a well-scoped single-assignment loop in the scope extended by the
+   hoisted names, and the non-invariant set covers its loop variables and definitions: the hypotheses of the later
+   stage theorems hold for it. *)
+Theorem C02loop_licm_leaves_wf_loop : forall S lvs ss bc hoisted inner ninv,
+  licm lvs ss = (hoisted, inner, ninv) ->
+  scoped S (SWhile lvs ss bc) = true ->
+  NoDup (binders (SWhile lvs ss bc)) ->
+  (forall x, In x (binders (SWhile lvs ss bc)) -> ~ In x S) ->
+  scoped (names_of hoisted ++ S) (SWhile lvs inner bc) = true /\
+  NoDup (binders (SWhile lvs inner bc)) /\
+  (forall x, In x (binders (SWhile lvs inner bc)) -> ~ In x (names_of hoisted ++ S)) /\
+  (forall x, In x (map t_name lvs ++ defs_l inner) -> In x ninv) /\
+  (forall x, In x (binders (SWhile lvs inner bc)) -> In x (binders (SWhile lvs ss bc))) /\
+  (forall x, In x (names_of hoisted) -> In x (binders_l ss)) /\
+  NoDup (names_of hoisted).
+Proof. exact licm_inner_wf. Qed.
+
+(* What Analysis.extract returns for such a loop satisfies the structural hypotheses of the stage theorems (owl_wf,
+   owl_reads_s given bases_kept), its body has pairwise distinct binders, and a body statement that binds a derived
+   induction variable is that variable's top-level binary defining statement. *)
+Theorem C02loop_extract_result_wf : forall (w : world) S lvs ss bc ninv o coll cc,
+  extract lvs ss bc ninv = XOk o ->
+  scoped S (SWhile lvs ss bc) = true ->
+  NoDup (binders (SWhile lvs ss bc)) ->
+  (forall x, In x (binders (SWhile lvs ss bc)) -> ~ In x S) ->
+  (forall x, In x (map t_name lvs ++ defs_l ss) -> In x ninv) ->
+  plain_break ss ->
+  (forall y, In y [coll; cc] -> ~ In y S /\ ~ In y (binders (SWhile lvs ss bc))) ->
+  owl_wf S o /\ (bases_kept o -> owl_reads_s S o) /\ NoDup (binders_l (o_stmts o)) /\
+  (forall d st, In d (o_derived o) -> In st (o_stmts o) -> In (dn_name d) (binders st) ->
+                exists op a b, st = SBin (dn_name d) op a b) /\
+  (forall x, In x (o_LN o ++ o_DN o ++ binders_l (o_stmts o)) -> In x (binders (SWhile lvs ss bc))) /\
+  bc_of o = bc.
+Proof. exact extract_bridge. Qed.
+
+(* ONE LOOP.  optimize_while_statement_with_all_loop_optimizations (Driver.loop_while: invariant code motion, then
+   extract, then the closed form, or strength reduction and re-expansion) on a well-scoped single-assignment loop,
+   with a supply of pairwise distinct new names of which something is left afterwards, outside the named classes
+   (loop_outside: K_nested_break, K_base_dropped, no induction-variable elimination = the open class
+   C02-iv-elimination-guard, closed form only with a representable exit value): every run of the loop that ends
+   normally is reproduced by the statements the pass returns, from any environment that agrees on the scope, with the
+   same call trace and the same use of fuel, in an environment that agrees on the scope and on the break collector. *)
+Theorem C02loop_loop_while_preserves : forall w fuel S lvs ss bc sup out sup' fl en en' tr,
+  loop_while lvs ss bc sup = Some (out, sup', fl) -> sup' <> [] ->
+  scoped S (SWhile lvs ss bc) = true ->
+  NoDup (binders (SWhile lvs ss bc)) ->
+  (forall x, In x (binders (SWhile lvs ss bc)) -> ~ In x S) ->
+  NoDup sup -> (forall y, In y sup -> ~ In y S /\ ~ In y (binders (SWhile lvs ss bc))) ->
+  loop_outside lvs ss bc sup ->
+  agree w S en en' ->
+  match exec Wrap w fuel (SWhile lvs ss bc) en tr with
+  | RNext e1 t => exists e1', exec_block Wrap w fuel out en' tr = RNext e1' t /\ agree w (opt_names bc ++ S) e1 e1'
+  | _ => True
+  end.
+Proof. exact loop_while_sound. Qed.
+
+(* THE FUNCTION.  Driver.loop_pass (optimize_function: every loop outside loop bodies, through IfElse / SingleIf) on a
+   well-formed function (C02deep.wf_func) with a fresh supply (C02deep.fresh_for) in the decidable domain
+   Cover.loop_pass_covered (something is left of the supply; every loop outside the named classes, the supply threaded
+   as the pass threads it): every run that ends normally on the target (wrapping) semantics is reproduced exactly -
+   same value, same calls in the same order, same fuel. *)
+Theorem C02loop_pass_preserves : forall w sup f f' fl,
+  wf_func f = true -> ProofsCseStatic.fresh_for sup f -> loop_pass_covered sup f = true ->
+  loop_pass sup f = Some (f', fl) ->
+  refines_wrap w f' f.
+Proof. exact loop_pass_preserves. Qed.
+(* the same with the freshness of the supply as a boolean: the form the tie evaluates on every real function *)
+Theorem C02loop_pass_preserves_decidable : forall w sup f f' fl,
+  wf_func f = true -> fresh_for_b sup f = true -> loop_pass_covered sup f = true ->
+  loop_pass sup f = Some (f', fl) -> refines_wrap w f' f.
+Proof. exact loop_pass_preserves_b. Qed.
+(* ... and with the domain as a proposition (loop_outside for every loop) *)
+Theorem C02loop_pass_refines : forall w sup f body sup' fl,
+  wf_func f = true -> ProofsCseStatic.fresh_for sup f ->
+  loop_stmts current (f_body f) sup = Some (body, sup', fl) -> sup' <> [] ->
+  outside_stmts (f_body f) sup ->
+  loop_pass sup f = Some (mkfunc (f_params f) body (f_ret f), fl) /\
+  refines_wrap w (mkfunc (f_params f) body (f_ret f)) f.
+Proof. exact loop_pass_refines. Qed.
+
+(* Composition with the other passes (C02deep.pipeline_preserves gives refines_add for ccp / cse / lvn / dce): the loop
+   pass as the LAST stage gives the property's `refines`. *)
+Theorem C02loop_after_pipeline : forall w f f1 f2,
+  refines_add w f1 f -> refines_wrap w f2 f1 -> refines w f2 f.
+Proof. exact refines_add_then_loop. Qed.
+(* It cannot be an inner stage of that chain: the loop pass does not preserve "no + / - overflow".  Strength reduction
+   advances the reduced variable once more than the original loop computes it; that last, unused value need not be
+   representable (d = i * 10^9 for i = 0, 1, 2; the reduced loop also computes 2 * 10^9 + 10^9). *)
+Theorem C02loop_pass_add_refuted :
+  exists f f' fl,
+    wf_func f = true /\ loop_pass_covered sup0 f = true /\ loop_pass sup0 f = Some (f', fl) /\ f_sr fl = 1%N /\
+    sem All ww f [0] 40 = Done 3 [(0%N, [2000000000; 2]); (0%N, [1000000000; 1]); (0%N, [0; 0])] /\
+    sem Wrap ww f' [0] 40 = Done 3 [(0%N, [2000000000; 2]); (0%N, [1000000000; 1]); (0%N, [0; 0])] /\
+    sem Add ww f' [0] 40 = Overflow.
+Proof. exact loop_pass_add_refuted. Qed.
+Theorem C02loop_pass_not_refines_add :
+  exists f f' fl, wf_func f = true /\ loop_pass sup0 f = Some (f', fl) /\ ~ refines_add ww f' f.
+Proof. exact loop_pass_not_refines_add. Qed.
+(* the domain of the function-level theorem contains functions on which strength reduction deletes a kept defining
+   statement (f_all, class K_sr_defs) and on which the closed form fires (f_count) *)
+Example C02loop_pass_covered_nonvacuous :
+  wf_func f_all = true /\ loop_pass_covered sup0 f_all = true /\
+  wf_func f_count = true /\ loop_pass_covered sup0 f_count = true /\
+  nth 7 (classes_func f_all) 0%N = 1%N.
+Proof. exact loop_pass_covered_nonvacuous. Qed.
+
 (* ================================================================== non-vacuity *)
 Example C02loop_nonvacuous :
   exists f' fl,
@@ -339,7 +496,10 @@ Print Assumptions C02loop_extract_expand_preserves.
 Print Assumptions C02loop_alg_closed_form.
 Print Assumptions C02loop_alg_exit_condition_needed.
 Print Assumptions C02loop_sr_shape.
-Print Assumptions C02loop_sr_preserves_partial.
+Print Assumptions C02loop_sr_preserves.
+Print Assumptions C02loop_sr_defs_affine.
+Print Assumptions C02loop_sr_defs_affine_same_stmts.
+Print Assumptions C02loop_sr_preserves_no_kept_defs.
 Print Assumptions C02loop_ive_shape.
 Print Assumptions C02loop_ive_preserves.
 Print Assumptions C02loop_ive_guard_operator_refuted.
@@ -347,3 +507,12 @@ Print Assumptions C02loop_ive_negative_multiplier_refuted.
 Print Assumptions C02loop_ive_bound_overflow_refuted.
 Print Assumptions C02loop_ive_initial_overflow_refuted.
 Print Assumptions C02loop_ive_exit_overflow_refuted.
+Print Assumptions C02loop_licm_leaves_wf_loop.
+Print Assumptions C02loop_extract_result_wf.
+Print Assumptions C02loop_loop_while_preserves.
+Print Assumptions C02loop_pass_preserves.
+Print Assumptions C02loop_pass_preserves_decidable.
+Print Assumptions C02loop_pass_refines.
+Print Assumptions C02loop_after_pipeline.
+Print Assumptions C02loop_pass_add_refuted.
+Print Assumptions C02loop_pass_not_refines_add.
